@@ -32,8 +32,8 @@ Definition eval03 (e : sexp) : verdict :=
       match parse_ty tys, parse_val xs, parse_val ys with
       | Some t, Some x, Some y =>
           let typed := (has_type [] t x && has_type [] t y)%bool in
-          let m := cmpm_m true [] t x y in
           let mf := method_free t in
+          let m := if mf then compare_model t x y else cmpm_m true [] t x y in
           if (String.eqb k "cmp" || String.eqb k "cmpc")%bool then
             (* specification: the encoding order, and 0 exactly when structurally equal *)
             let s := if mf then match spec_cmp [] t x y with Some c => Ok c | None => Stuck end else m in
